@@ -674,10 +674,13 @@ def grammar_check(run, module, which):
 
 def check_C12(run):
     grammar_check(run, "C12", "C12")
+    run.assumptions += ["proved: the production Program ::= ';'* (all lengths, release profile); the rest of the construct grammar is covered by sampling (programs must lex without error and end in the initial configuration)"]
 
 
 def check_C13(run):
     grammar_check(run, "C13", "C13")
+    run.assumptions += ["proved: the parenthesis-counter step lemmas of the argument-value scanner and the pre-loaded parentheses of built-ins; delimiter/operator/gap positions over whole programs are tested on sampled grammar programs",
+                        "grammar side condition: in expressions, gaps next to an operand are whitespace only (a comment directly after an operand makes the lexer keep the operand as text: documented limitation of the crate, DESIGN 6.3)"]
 
 
 def check_C14(run):
@@ -751,4 +754,4 @@ def check_C18(run):
     run.assumptions += ["equality of the two feature builds up to MacroSep tokens is tested on every input (both builds of the implementation, both configurations of the model); proved: the guard predicate"]
 
 
-CHECKS = {"C04": check_C04, "C06": check_C06, "C07": check_C07, "C14": check_C14, "C10": check_C10, "C16": check_C16, "C17": check_C17, "C18": check_C18, "C09": check_C09, "C05": check_C05, "C03": check_C03, "C02": check_C02, "C19": check_C19}
+CHECKS = {"C04": check_C04, "C06": check_C06, "C07": check_C07, "C12": check_C12, "C13": check_C13, "C14": check_C14, "C10": check_C10, "C16": check_C16, "C17": check_C17, "C18": check_C18, "C09": check_C09, "C05": check_C05, "C03": check_C03, "C02": check_C02, "C19": check_C19}
